@@ -61,8 +61,11 @@ Print Assumptions render_contract_partial.
         Pile around such widgets.  The contract is proved with the row count [min_rows w] (0 or 1) in
         place of 1 (rows_and_pack_partial_ext below); Columns of such widgets has one row since ba7db6e
         (rows() = max(1, heights), the canvas padded to one row), so they may stand in any column, as the
-        body of a LineBox, in a Frame or below an Overlay.  The top widget of an Overlay must have a row
-        ([min_rows t = 1]): a 0-row top widget with height='pack' makes the real render raise. ---- *)
+        body of a LineBox, in a Frame, below an Overlay or as the top widget of an Overlay with a given or
+        relative width: since f9cf74e an Overlay whose top canvas is empty returns its bottom canvas, so an
+        Overlay with height='pack' over a top widget without rows has the rows of its margins only (none:
+        the bottom widget is asked for 0 rows, the marker).  Only a FIXED top widget (width='pack') must
+        still have a row: Overlay refuses it with OverlayError (known finding). ---- *)
 Theorem render_contract_partial_ext :
   forall w sz f, leaves_ok2 w -> WellFormed w -> proved_fragment2 w = true ->
     sz <> SFixed -> valid_for (m_sizing (denote w)) sz ->
@@ -162,7 +165,12 @@ Print Assumptions frame_contract.
 Theorem overlay_contract : forall t b p,
   Good t -> Good b -> s_box (m_sizing b) = true -> overlay_given p ->
   overlay_top_ok (m_sizing t) p = true -> Good (overlay_sem t b p).
-Proof. intros t b p Gt Gb. apply overlay_good; auto. exists 1. exact Gb. Qed.
+Proof. intros t b p Gt Gb. apply overlay_good1; auto. exists 1. exact Gb. Qed.
+(* the top widget may have no rows (nt = 0): the Overlay then has overlay_min_rows nt p rows at least *)
+Theorem overlay_contract_zero_rows : forall nt t b p,
+  0 <= nt <= 1 -> GoodN nt t -> (exists nb, GoodN nb b) -> s_box (m_sizing b) = true -> overlay_given p ->
+  overlay_top_ok (m_sizing t) p = true -> GoodN (overlay_min_rows nt p) (overlay_sem t b p).
+Proof. exact overlay_good. Qed.
 Print Assumptions overlay_contract.
 (* the columns may hold widgets without rows; Columns itself always has at least one (ba7db6e) *)
 Theorem columns_contract : forall l d mw fp,
@@ -434,4 +442,24 @@ Proof. vm_compute. repeat split; reflexivity. Qed.
 Example zero_row_leaves : leaves_ok2 (linebox empty_pile) /\ leaves_ok2 cols_box_and_empty.
 Proof.
   cbn. repeat (first [exact line_ok | exact solid_ok | exact divider_ok | exact title_ok | split]).
+Qed.
+
+(* f9cf74e: an Overlay over a top widget without rows (height='pack') shows the bottom widget *)
+Definition overlay_of_empty : widget :=
+  WOverlay empty_pile (WLeaf solid_leaf) (mkOv 0 (WGiven 3) 0 HPack None None 0 0 0 0).
+Definition overlay_of_empty_margins : widget :=
+  WOverlay (WAttr empty_pile) (WLeaf solid_leaf) (mkOv 50 (WRelative 50) 100 HPack None None 1 0 2 1).
+Example overlay_zero_row_top :
+  WellFormed overlay_of_empty /\ proved_fragment2 overlay_of_empty = true /\ min_rows overlay_of_empty = 0
+  /\ m_render (denote overlay_of_empty) (SBox 5 3) false = Ok (mkC 5 3 None true)
+  /\ m_render (denote overlay_of_empty) (SBox 1 7) true = Ok (mkC 1 7 None true)
+  /\ m_rows (denote overlay_of_empty) 5 false = Ok 0
+  /\ m_render (denote overlay_of_empty) (SFlow 5) false = Err EStarved
+  /\ WellFormed overlay_of_empty_margins /\ proved_fragment2 overlay_of_empty_margins = true
+  /\ m_rows (denote overlay_of_empty_margins) 6 false = Ok 3
+  /\ m_render (denote overlay_of_empty_margins) (SFlow 6) false = Ok (mkC 6 3 None true)
+  /\ leaves_ok2 overlay_of_empty /\ leaves_ok2 overlay_of_empty_margins.
+Proof.
+  repeat (split; [vm_compute; reflexivity|]).
+  split; cbn; repeat (first [exact solid_ok | split]).
 Qed.
